@@ -276,6 +276,115 @@ pub fn classify(_text: &str) -> Value {
     Value::Null
 }
 
+/// nesting constructs: (name, opener, closer, levels taken per nesting)
+const NESTS: &[(&str, &str, &str, usize)] = &[
+    ("do", "do\n", "\nend", 1),
+    ("if", "if x then\n", "\nend", 1),
+    ("while", "while x do\n", "\nend", 1),
+    ("for", "for i = 1, 2 do\n", "\nend", 1),
+    ("repeat", "repeat\n", "\nuntil x", 1),
+    ("function", "function f()\n", "\nend", 1),
+    ("closure", "x = function()\n", "\nend", 2),
+    ("paren", "x = (\n", ")", 1),
+    ("paren-only", "(\n", ")", 1),
+    ("table", "{\n", "}", 1),
+    ("table-field", "{ a =\n", "}", 1),
+    ("call", "f(\n", ")", 1),
+];
+const NEST_COMMENTS: &[&str] = &["-- c", "---@type X", "--[[ b ]]", "--- doc\n---@param a number", "--[==[ l\n2 ]==]", "-- c\n\n-- d"];
+
+/// `depth` nestings of a construct with a comment at the innermost level and (optionally) at two
+/// outer levels; expression constructs get an expression statement prefix
+fn nest_text(nest: &(&str, &str, &str, usize), depth: usize, comment: &str, outer: bool) -> String {
+    let (name, open, close, _) = *nest;
+    let expr = matches!(name, "paren-only" | "table" | "table-field" | "call");
+    let mut s = String::new();
+    if expr { s.push_str("x = "); }
+    for k in 0..depth {
+        s.push_str(open);
+        if outer && (k == 0 || k == depth / 2) {
+            s.push_str(comment);
+            s.push('\n');
+        }
+    }
+    s.push_str(comment);
+    s.push('\n');
+    s.push_str(if expr || name == "paren" { "1 -- tail\n" } else { "local x = 1 -- c\n" });
+    for _ in 0..depth { s.push_str(close); }
+    s.push_str("\n-- after\nreturn x\n");
+    s
+}
+
+/// doc-type nestings inside a doc comment, possibly inside nested blocks
+fn doc_nest_text(kind: usize, depth: usize, blocks: usize) -> String {
+    let (o, c) = [("(", ")"), ("A<", ">"), ("fun(a: ", ")"), ("{a: ", "}"), ("[", "]")][kind % 5];
+    format!("{}---@type {}A{}\nlocal x = 1\n{}", "do\n".repeat(blocks), o.repeat(depth), c.repeat(depth), "end\n".repeat(blocks))
+}
+
+/// ladders around the syntax-level limit (taken from the parser's own constant)
+pub fn limit_ladders(thorough: bool) -> Vec<String> {
+    let limit = LuaParser::MAX_SYNTAX_LEVELS;
+    let mut out = Vec::new();
+    for nest in NESTS {
+        let per = nest.3;
+        let l = limit / per;
+        let mut depths: Vec<usize> = vec![1, 3, l / 2, l - 20, l - 3, l - 2, l - 1, l, l + 1, l + 2, l + 3, l + 20, 2 * l + 1];
+        if thorough {
+            depths.extend((l.saturating_sub(25))..(l + 25));
+            depths.push(5 * l);
+        }
+        depths.sort();
+        depths.dedup();
+        for (di, d) in depths.iter().enumerate() {
+            for (ci, c) in NEST_COMMENTS.iter().enumerate() {
+                if !thorough && ci >= 3 && di % 3 != ci % 3 { continue; }
+                out.push(nest_text(nest, *d, c, false));
+                if thorough || (di + ci) % 2 == 0 {
+                    out.push(nest_text(nest, *d, c, true));
+                }
+            }
+        }
+    }
+    for kind in 0..5 {
+        for d in [1usize, limit / 2, limit - 2, limit - 1, limit, limit + 1, limit + 2, 2 * limit] {
+            for blocks in [0usize, 1, limit / 2, limit - 2, limit - 1, limit] {
+                out.push(doc_nest_text(kind, d, blocks));
+            }
+        }
+    }
+    out
+}
+
+const RARE_PREFIXES: &[&str] = &["", "\u{feff}", "#!shebang\n", "\u{feff}#!shebang\n", "\u{feff}#", "#", "\u{feff}\u{feff}", "\n#!shebang\n",
+    "\0", "\r", "\u{feff}\r\n", "#\u{feff}\n", "\u{feff}#!a\r#!b\n", " \u{feff}", "\u{feff}--c\n", "\u{feff}---@meta\n"];
+const RARE_BODIES: &[&str] = &["", "local x = 1\n", "-- c\n", "---@type X\nlocal x\n", "x = [[long\nstring]]\n", "x = [==[ unterminated", "--[[ unterminated",
+    "x\u{feff}y = 1\n", "return 'a\\z\n  b'\n", "#!not a shebang here\n", "f() --", "x = 'unterminated"];
+const RARE_SUFFIXES: &[&str] = &["", "\0", "\u{feff}", "\r", "--", "--[[", "---@", "[[", "[=[", "'", "\"", "\\", "\n#!x", "\u{feff}#", "-", "---|", "--[==[ x ]=]"];
+
+/// structured prefix family: every rare prefix × every body (× a few suffixes)
+pub fn prefix_family(thorough: bool) -> Vec<String> {
+    let mut out = Vec::new();
+    for p in RARE_PREFIXES {
+        for b in RARE_BODIES {
+            out.push(format!("{p}{b}"));
+            if thorough {
+                for s in RARE_SUFFIXES { out.push(format!("{p}{b}{s}")); }
+            }
+        }
+    }
+    for b in RARE_BODIES {
+        for s in RARE_SUFFIXES { out.push(format!("{b}{s}")); }
+    }
+    out
+}
+
+/// generic booster: wrap a generated body with a rare prefix and/or suffix
+pub fn boost(rng: &mut Rng, body: &str) -> String {
+    let p = if rng.chance(2, 3) { *rng.pick(RARE_PREFIXES) } else { "" };
+    let s = if rng.chance(2, 3) { *rng.pick(RARE_SUFFIXES) } else { "" };
+    format!("{p}{body}{s}")
+}
+
 pub fn corpus() -> Vec<String> {
     vec![
         "local a = 1\0 local b = 2".into(),
@@ -380,17 +489,28 @@ pub fn run(args: &Args, report: &mut Report) {
     let n_text = if args.thorough() { 400_000 } else { 20_000 };
     let max_pieces = if args.thorough() { 40 } else { 14 };
     let mut texts: Vec<(String, &'static str)> = corpus().into_iter().map(|t| (t, "corpus")).collect();
+    texts.extend(prefix_family(args.thorough()).into_iter().map(|t| (t, "prefix-family")));
+    texts.extend(limit_ladders(args.thorough()).into_iter().map(|t| (t, "limit-ladder")));
     for _ in 0..n_text {
         let mp = if rng.chance(1, 20) { max_pieces * 4 } else { max_pieces };
-        texts.push(tgen::text(&mut rng, mp));
+        let (t, cls) = tgen::text(&mut rng, mp);
+        if rng.chance(1, 4) {
+            texts.push((boost(&mut rng, &t), "boosted"));
+        } else {
+            texts.push((t, cls));
+        }
     }
     let mut tie_cases: Vec<(String, LuaLanguageLevel, bool)> = Vec::new();
     let tie_every = if args.thorough() { 8 } else { 4 };
     let mut seen_t: HashSet<(String, usize, bool)> = HashSet::new();
     for (k, (t, cls)) in texts.iter().enumerate() {
         // corpus entries run under every configuration, generated texts under one random + default
-        let cfgs: Vec<(LuaLanguageLevel, bool)> = if *cls == "corpus" {
+        let cfgs: Vec<(LuaLanguageLevel, bool)> = if *cls == "corpus" || *cls == "prefix-family" {
             LEVELS.iter().flat_map(|l| [(*l, true), (*l, false)]).collect()
+        } else if *cls == "limit-ladder" {
+            let l = LEVELS[k % 8];
+            if args.thorough() { vec![(l, true), (l, false), (LuaLanguageLevel::Lua55, true), (LuaLanguageLevel::Lua51, false)] }
+            else { vec![(l, true), (LuaLanguageLevel::Lua55, false)] }
         } else {
             vec![(LEVELS[rng.below(8)], rng.chance(3, 4)), (LuaLanguageLevel::Lua55, true)]
         };
@@ -411,7 +531,13 @@ pub fn run(args: &Args, report: &mut Report) {
                 report.oracle_failure(json!({"input": {"text_hex": hex(t), "text": t, "level": level_name(level), "doc": doc},
                     "what": f, "class": classify(t)}));
             }
-            if *cls == "corpus" || k % tie_every == 0 {
+            let tie_this = match *cls {
+                "corpus" => true,
+                "prefix-family" => lidx % 4 == 0,
+                "limit-ladder" => k % 24 == 0,   // long event streams: a sample is enough for the model tie
+                _ => k % tie_every == 0,
+            };
+            if tie_this {
                 tie_cases.push((t.clone(), level, doc));
             }
         }
